@@ -64,6 +64,14 @@ pub struct RrScript {
     /// started; calls continue across the reconnect. Only reply attribution is judged then.
     #[serde(default)]
     pub outage_at_ms: Option<u64>,
+    /// payload codec of both directions: false = StringCodec, true = BincodeCodec<String>
+    #[serde(default)]
+    pub bincode: bool,
+    /// compression of requests / of replies
+    #[serde(default)]
+    pub req_comp: Option<super::e2e::CompKind>,
+    #[serde(default)]
+    pub rep_comp: Option<super::e2e::CompKind>,
 }
 
 pub fn gen_script(rng: &mut Rng) -> RrScript {
@@ -108,7 +116,10 @@ pub fn gen_script(rng: &mut Rng) -> RrScript {
             }
         }
     }
-    RrScript { net: mild_net(rng), rt_seed: rng.next(), n_clients, streams, timeout_ms, replier_first: rng.chance(1, 2), library_replier, outage_at_ms }
+    use super::e2e::CompKind;
+    let pick_comp = |rng: &mut Rng| -> Option<CompKind> { if rng.chance(1, 2) { None } else { Some(*rng.pick(&[CompKind::Gzip, CompKind::Zlib, CompKind::Zstd, CompKind::Lz4, CompKind::BrotliGeneric, CompKind::BrotliText])) } };
+    let (req_comp, rep_comp) = (pick_comp(rng), pick_comp(rng));
+    RrScript { net: mild_net(rng), rt_seed: rng.next(), n_clients, streams, timeout_ms, replier_first: rng.chance(1, 2), library_replier, outage_at_ms, bincode: rng.chance(1, 3), req_comp, rep_comp }
 }
 
 #[derive(Clone, Debug)]
@@ -128,7 +139,12 @@ fn reply_text(req: &str) -> String {
     format!("re:{req}")
 }
 
-async fn scenario(world: Rc<World>, sc: RrScript) -> AResult<(Vec<CallResult>, HashMap<usize, u64>, Vec<String>)> {
+async fn scenario<C>(world: Rc<World>, sc: RrScript, codec: C) -> AResult<(Vec<CallResult>, HashMap<usize, u64>, Vec<String>)>
+where
+    C: selium::std::traits::codec::MessageEncoder<String> + selium::std::traits::codec::MessageDecoder<String> + Clone + Send + Sync + Unpin + 'static,
+{
+    use super::e2e::{make_comp, make_decomp, Level};
+    use selium::std::traits::compression::{Compress, Decompress};
     world.start_server(ServerOpts::default())?;
     let backoff = if sc.outage_at_ms.is_some() { BackoffStrategy::constant().with_max_attempts(5).with_step(Duration::from_millis(50)) } else { BackoffStrategy::constant().with_max_attempts(0) };
     let topic_s = "/rpc/echo";
@@ -144,13 +160,17 @@ async fn scenario(world: Rc<World>, sc: RrScript) -> AResult<(Vec<CallResult>, H
     }
     let emitted_at: std::sync::Arc<std::sync::Mutex<HashMap<usize, u64>>> = std::sync::Arc::new(std::sync::Mutex::new(HashMap::new()));
     let timeout_ms = sc.timeout_ms;
+    let (req_comp, rep_comp) = (sc.req_comp, sc.rep_comp);
+    let codec_r = codec.clone();
     let start_replier = {
+        let codec = codec_r;
         let world = world.clone();
         let plans = plans.clone();
         let emitted_at = emitted_at.clone();
         let notes = notes.clone();
         let library = sc.library_replier;
         move || {
+            let codec = codec.clone();
             let world = world.clone();
             let plans = plans.clone();
             let emitted_at = emitted_at.clone();
@@ -165,10 +185,17 @@ async fn scenario(world: Rc<World>, sc: RrScript) -> AResult<(Vec<CallResult>, H
                     let mut replier = ACTOR
                         .scope(
                             g,
-                            client
-                                .replier(topic_s)
-                                .with_request_decoder(StringCodec)
-                                .with_reply_encoder(StringCodec)
+                            {
+                                let mut b = client.replier(topic_s).with_request_decoder(codec.clone());
+                                if let Some(k) = req_comp {
+                                    b = b.with_request_decompression(make_decomp(k));
+                                }
+                                let mut b = b.with_reply_encoder(codec.clone());
+                                if let Some(k) = rep_comp {
+                                    b = b.with_reply_compression(make_comp(k, Level::Default));
+                                }
+                                b
+                            }
                                 .with_handler(move |req: String| {
                                     let k: usize = req[1..].split(':').next().and_then(|s| s.parse().ok()).unwrap_or(usize::MAX);
                                     let plan = plans2.get(&k).cloned().unwrap_or(Plan::Now);
@@ -206,11 +233,24 @@ async fn scenario(world: Rc<World>, sc: RrScript) -> AResult<(Vec<CallResult>, H
                     tokio::task::spawn_local(async move {
                         let _keep = (_ep, conn);
                         while let Some(Ok(Frame::Message(req))) = rx.next().await {
-                            let text = String::from_utf8_lossy(&req.message).to_string();
+                            // the raw replier speaks the requestor's transforms by hand
+                            let mut body = req.message.clone();
+                            if let Some(k) = req_comp {
+                                body = match make_decomp(k).decompress(body) {
+                                    Ok(b) => b,
+                                    Err(_) => continue,
+                                };
+                            }
+                            let mut bm = bytes::BytesMut::from(&body[..]);
+                            let Ok(text) = codec.decode(&mut bm) else { continue };
                             let k: usize = text[1..].split(':').next().and_then(|s| s.parse().ok()).unwrap_or(usize::MAX);
                             let plan = plans.get(&k).cloned().unwrap_or(Plan::Now);
                             let sink = sink.clone();
                             let em = emitted_at.clone();
+                            let mut reply_body = codec.encode(reply_text(&text)).unwrap_or_default();
+                            if let Some(k) = rep_comp {
+                                reply_body = make_comp(k, Level::Default).compress(reply_body).unwrap_or_default();
+                            }
                             tokio::task::spawn_local(async move {
                                 let (delay, twice) = match plan {
                                     Plan::Now => (0, false),
@@ -223,7 +263,7 @@ async fn scenario(world: Rc<World>, sc: RrScript) -> AResult<(Vec<CallResult>, H
                                     tokio::time::sleep(Duration::from_millis(delay)).await;
                                 }
                                 em.lock().unwrap().entry(k).or_insert(virtual_ms());
-                                let frame = Frame::Message(MessagePayload { headers: req.headers.clone(), message: Bytes::from(reply_text(&text)) });
+                                let frame = Frame::Message(MessagePayload { headers: req.headers.clone(), message: reply_body });
                                 let _ = sink.lock().await.send(frame.clone()).await;
                                 if twice {
                                     tokio::time::sleep(Duration::from_millis(30)).await;
@@ -252,7 +292,15 @@ async fn scenario(world: Rc<World>, sc: RrScript) -> AResult<(Vec<CallResult>, H
     let mut requestors = vec![];
     for s in &sc.streams {
         let (g, c) = &clients[s.client];
-        let r = ACTOR.scope(*g, c.requestor(topic_s).with_request_encoder(StringCodec).with_reply_decoder(StringCodec).with_request_timeout(Duration::from_millis(sc.timeout_ms))?.open()).await?;
+        let mut b = c.requestor(topic_s).with_request_encoder(codec.clone());
+        if let Some(k) = sc.req_comp {
+            b = b.with_request_compression(make_comp(k, Level::Default));
+        }
+        let mut b = b.with_reply_decoder(codec.clone());
+        if let Some(k) = sc.rep_comp {
+            b = b.with_reply_decompression(make_decomp(k));
+        }
+        let r = ACTOR.scope(*g, b.with_request_timeout(Duration::from_millis(sc.timeout_ms))?.open()).await?;
         requestors.push((*g, r));
     }
     if !sc.replier_first {
@@ -304,7 +352,11 @@ async fn scenario(world: Rc<World>, sc: RrScript) -> AResult<(Vec<CallResult>, H
 pub fn execute(prop: &str, sc: &RrScript, opts: &ExecOpts) -> Outcome {
     let mut out = Outcome::default();
     let sc2 = sc.clone();
-    let res = run_world(sc.net, sc.rt_seed, Duration::from_secs(900), move |world| scenario(world, sc2));
+    let res = if sc.bincode {
+        run_world(sc.net, sc.rt_seed, Duration::from_secs(900), move |world| scenario(world, sc2, selium::std::codecs::BincodeCodec::<String>::default()))
+    } else {
+        run_world(sc.net, sc.rt_seed, Duration::from_secs(900), move |world| scenario(world, sc2, StringCodec))
+    };
     let mut th = Hasher64::default();
     match res {
         Err(e) => {
